@@ -284,6 +284,14 @@ def c10(ctx):
         ev += r["renders"]
         for v in r["violations"][:1]:
             ctx.violation("repeated rendering of one value differs", {"prog": r["prog"][:1500], "detail": v[:2500]})
+    # a second process renders the same values for the first time in the opposite order
+    rev = special_mode_cases(ctx, "c10", ["-n", str(n), "-repeat", "1", "-reverse"])
+    ctx.obligation("both c10 runs generate the same values", [r["prog"] for r in res] == [r["prog"] for r in rev])
+    for a, b in zip(res, rev):
+        ev += 1
+        if a["prog"] == b["prog"] and a["first"] != b["first"]:
+            ctx.violation("the outcome of rendering a value depends on which other values were rendered before it",
+                          {"prog": a["prog"][:1500], "rendered_early": a["first"][:2000], "rendered_late": b["first"][:2000]})
     ctx.cov["evaluations"] = ev
     ctx.cov["distinct_nontrivial"] = len(res)
     ctx.cov["rule"] = (f"each value (structured statements; InsertInto/Update.SetMap with 1..64 random keys) rendered {reps} times "
@@ -690,6 +698,10 @@ def c18(ctx):
                 if "too many arguments" in c["panic"]:
                     continue
                 ctx.violation("wrapper panicked: " + c["panic"][:200], rep)
+                continue
+            if c.get("alias"):
+                rep["aliasing"] = c["alias"]
+                ctx.violation("wrapper does not pass its arguments unchanged: " + c["alias"][:200], rep)
                 continue
             go_name = c["name"].split(".")[1]
             sql = c["sql"]
@@ -1201,6 +1213,9 @@ def c01(ctx):
     ev = 0
     nontriv = set()
 
+    seen_sigs = set()
+    dup = [0]
+
     def classify(rep, classes, what):
         """a text that does not read back as composed: recorded finding, outside the quantifier, or violation"""
         qs = [c for c in classes if c.startswith("Q-")]
@@ -1215,8 +1230,14 @@ def c01(ctx):
             verdicts["recorded finding"] += 1
         else:
             rep["classes"] = classes
-            ctx.violation(what + (": " + ", ".join(unlisted) if unlisted else ""), rep)
             verdicts["violation"] += 1
+            sig = (what, tuple(sorted(set(classes))), rep.get("statement", "")[:6])
+            # one replay per distinct kind of failure, so that the listed ones are different from each other
+            if sig not in seen_sigs:
+                seen_sigs.add(sig)
+                ctx.violation(what + (": " + ", ".join(unlisted) if unlisted else ""), rep)
+            else:
+                dup[0] += 1
 
     # ---- A: intent-level programs: what the caller means vs what PostgreSQL's grammar reads
     n_int = 2500 if ctx.quick() else 60000
@@ -1259,6 +1280,11 @@ def c01(ctx):
     reqs, owner = [], []
     for ci, c in enumerate(cases):
         seen = set()
+        # "renders without error": judged under validation; with validation off an invalid caller-supplied name is
+        # written as it is and says nothing about the builders
+        if any(r.get("panic") or r.get("missing") or r["err"] is not None for r in c["renders"][:4] if r["v"]):
+            verdicts["not rendering without error"] += 1
+            continue
         for r in c["renders"][:4]:
             if r.get("panic") or r.get("missing") or r["err"] is not None or r["sql"] in seen:
                 continue
@@ -1291,6 +1317,8 @@ def c01(ctx):
             classify(rep, classes, "a composed part is missing, duplicated, moved or the text is not a statement")
     for kid, rep in sorted(known_hit.items()):
         ctx.known.append(f"{kid} e.g. {rep['prog'][:300]} is emitted as {rep['emitted'][:300]!r}")
+    if dup[0]:
+        ctx.notes.append(f"{dup[0]} further violations of an already listed kind are not listed separately")
     ctx.cov["evaluations"] = ev
     ctx.cov["distinct_nontrivial"] = len(nontriv)
     ctx.cov["verdicts"] = dict(verdicts)
@@ -1350,6 +1378,16 @@ def c02(ctx):
     ev = 0
     nontriv = set()
     decodefail = []
+    # site classes whose local condition fails although the tree reads back as composed (the checker is a strict
+    # sub-grammar): demonstrated harmless, alone, in this very run
+    harmless = set()
+    for (ci, t, where), a in zip(owner, answers):
+        parts = a.split(" ")
+        if parts[:2] == ["C02", "ok"] and len(parts) > 3:
+            ok_sites = [x for x in parts[3].split(",") if x]
+            if len(ok_sites) == 1:
+                harmless.add(ok_sites[0])
+    ctx.cov["harmless_site_classes"] = sorted(harmless)
     for (ci, t, where), a in zip(owner, answers):
         c = cases[ci]
         parts = a.split(" ")
@@ -1373,7 +1411,9 @@ def c02(ctx):
                "failing_sites": sites, "dump": c["dump"][:3000]}
         for s_ in sites:
             site_hist[s_] += 1
-        unlisted = [s_ for s_ in sites if "D7-" + s_ not in listed]
+        unlisted = [s_ for s_ in sites if "D7-" + s_ not in listed and s_ not in harmless]
+        if sites and not unlisted and not any("D7-" + s_ in listed for s_ in sites):
+            unlisted = sites        # only harmless sites fail, yet the text reads back differently
         if parts[2] == "T":
             ctx.violation("a tree the checker accepts (C02_parse_back applies) reads back differently: model / "
                           "implementation / reader disagree", rep)
@@ -1386,7 +1426,8 @@ def c02(ctx):
                           "not among the recorded findings): " + ", ".join(unlisted), rep)
         else:
             for s_ in sites:
-                known_hit.setdefault("D7-" + s_, rep)
+                if "D7-" + s_ in listed:
+                    known_hit.setdefault("D7-" + s_, rep)
     ctx.obligation("every c02 request is answered by the model", not decodefail, json.dumps(decodefail[:3]))
     skipped = verdicts.get("skip", 0)
     ctx.obligation("at most 1% of the texts are outside the reader's fragment", skipped * 100 <= max(1, ev), str(skipped))
